@@ -6,6 +6,7 @@ From LokyV Require Import Lib.LedgerLib Lib.PoolLib Gen.Ledger Gen.Pool Model.Po
 From LokyV Require Lib.WorkerLib Gen.Worker Proofs.WorkerThm.
 From LokyV Require Lib.ExitLib Gen.Exit Proofs.ExitThm.
 From LokyV Require Lib.ResizeLib Gen.Resize Model.Watch Proofs.WatchThm.
+From LokyV Require Model.FailLoop Proofs.FailLoopThm.
 Import ListNotations.
 
 (* at every point of every interleaving of submit / shutdown / deaths / idle exits / completions with the manager walking its lists
@@ -87,6 +88,29 @@ Example C02_h13_wake_up_before_the_spawn :
   let s := fold_left (Watch.step_with [Watch.UWake; Watch.USpawn] [])
              [Watch.MgrSnapshot; Watch.SubmitBegin; Watch.UserStep 0; Watch.MgrWake; Watch.MgrSnapshot; Watch.UserStep 1] Watch.wt0 in
   Watch.quiet s = true /\ Watch.unw s = 1.
+Proof. vm_compute. split; reflexivity. Qed.
+
+(* ---- failing the table (Model/FailLoop.v; finding H14, fixed) ----
+   terminate_broken(): `for work_item in pending_work_items.values(): work_item.future.set_exception(bpe)`.
+   A future still waiting in the table can be cancelled by its owner at any moment, also between two iterations, and
+   Future.set_exception() raises InvalidStateError on a cancelled future.  How the loop guards the call is read off the source
+   (broken_path_fail_guard).  For every table and every interleaving of cancellations with the loop: the error never escapes (the
+   manager thread survives), when the loop has ended every item has an outcome (failed by the manager, or cancelled by its owner) and
+   none was lost, and it ends after one step per item plus one.  On the pinned source the call was bare: one cancelled future killed
+   the manager thread, the items after it were never failed, the workers neither killed nor joined (real reproduction
+   findings/H14_real.py). *)
+Theorem C02_failing_the_table_never_kills_the_manager :
+  forall table es, let s := FailLoop.run broken_path_fail_guard es (FailLoop.start table) in
+    FailLoop.lphase s <> FailLoop.Crashed /\
+    (FailLoop.lphase s = FailLoop.Finished ->
+       FailLoop.todo s = [] /\ forallb FailLoop.terminal (FailLoop.handled s) = true /\ length (FailLoop.handled s) = length table) /\
+    (length table < FailLoop.mgr_steps es -> FailLoop.lphase s = FailLoop.Finished).
+Proof. exact FailLoopThm.guarded_loop_never_crashes. Qed.
+Print Assumptions C02_failing_the_table_never_kills_the_manager.
+
+Example C02_h14_bare_call :
+  let s := FailLoop.run NoGuard [FailLoop.Cancel 1; FailLoop.Mgr; FailLoop.Mgr] (FailLoop.start [FailLoop.Waiting; FailLoop.Waiting; FailLoop.Waiting]) in
+  FailLoop.lphase s = FailLoop.Crashed /\ FailLoop.todo s = [FailLoop.Cancelled; FailLoop.Waiting].
 Proof. vm_compute. split; reflexivity. Qed.
 
 From Coq Require Import String ZArith.
